@@ -211,8 +211,8 @@ def _rel(a, b, atol):
 def atols(case):
     ym = max(1e-300, float(np.max(np.abs(np.array(case["Y"])))))
     sc = case["scoring"]
-    a_cv = 1e-9 * (1.0 if sc == "r2" else ym if sc == "neg_root_mean_squared_error" else ym * ym)
-    return a_cv, 1e-9 * ym
+    a_cv = 1e-12 * (1.0 if sc == "r2" else ym if sc == "neg_root_mean_squared_error" else ym * ym)
+    return a_cv, 1e-12 * ym
 
 
 def gates(case, splits, hnt):
@@ -236,7 +236,7 @@ def gates(case, splits, hnt):
     cvs = m64["cv"]
     b = m64["best"]
     tie_exact = sum(1 for v in cvs if v == cvs[b])
-    near_tie = any((v != cvs[b]) and abs(v - cvs[b]) <= 1e-6 * (abs(cvs[b]) + a_cv * 1e3) for v in cvs)
+    near_tie = any((v != cvs[b]) and abs(v - cvs[b]) <= 1e-6 * (abs(cvs[b]) + a_cv * 1e6) for v in cvs)
     gsel = bool(all(gcv) and not near_tie and mld["best"] == b)
     gcoef = bool(gsel and _rel(m64["coef"], mld["coef"], 1e-300) <= GATE)
     gpred = bool(gsel and _rel(m64["pred"], mld["pred"], a_o) <= GATE)
@@ -322,7 +322,7 @@ def oracle(case, rec, splits=None, g=None):
     s2 = np.linalg.svd(X[f2], compute_uv=False)
     sal = al * max(s1.max(), s2.max()) if case["relative"] else al
     a_cv, a_o = atols(case)
-    tol = 1e-5
+    tol = 1e-6
     cvi = np.array(rec["cv"])
     if len(cvi) != len(al):
         return "cv_values_ has %d entries for %d alphas" % (len(cvi), len(al)), None
@@ -332,9 +332,9 @@ def oracle(case, rec, splits=None, g=None):
         w1 = explicit_fit(X[f1], Y[f1], a, cut, rc)
         w2 = explicit_fit(X[f2], Y[f2], a, cut, rc)
         want = (sk_score(case["scoring"], Y[f2], X[f2] @ w1) + sk_score(case["scoring"], Y[f1], X[f1] @ w2)) / 2
-        if abs(want - cvi[j]) > tol * max(abs(want), abs(cvi[j])) + a_cv * 1e3:
+        if abs(want - cvi[j]) > tol * max(abs(want), abs(cvi[j])) + a_cv * 1e4:
             swapped = (sk_score(case["scoring"], X[f2] @ w1, Y[f2]) + sk_score(case["scoring"], X[f1] @ w2, Y[f1])) / 2
-            key = KEY_F15 if abs(swapped - cvi[j]) <= tol * max(abs(swapped), abs(cvi[j])) + a_cv * 1e3 else None
+            key = KEY_F15 if abs(swapped - cvi[j]) <= tol * max(abs(swapped), abs(cvi[j])) + a_cv * 1e4 else None
             return ("cv_values_[%d] = %.12g but explicitly fitting %s(alpha=%.3g) on each fold and scoring it "
                     "on the other with %s gives %.12g%s" % (
                         j, cvi[j], case["method"], a, case["scoring"] or "neg_mean_squared_error", want,
@@ -351,7 +351,7 @@ def oracle(case, rec, splits=None, g=None):
     if np.any(low):
         comp = Vt[low] @ coef.T
         Wk = explicit_fit(X, Y, sal[b], cut, rc)
-        bound = 1e-6 * (1.0 + float(np.max(np.abs(Wk))))
+        bound = 1e-9 * (1.0 + float(np.max(np.abs(Wk))))
         if float(np.max(np.abs(comp))) > bound:
             return ("coef_ has a component %.3g along a right singular direction of X whose singular value "
                     "%.3g is <= rcond %.3g (max|coef_| = %.3g; the explicit solution on the retained "
@@ -370,10 +370,21 @@ def oracle(case, rec, splits=None, g=None):
     return None
 
 
+def in_region(case, hnt, reported):
+    """The case lies where a defect reported in this run acts (its effect may be below the
+    oracle's tolerance but above the correspondence tolerance)."""
+    X = np.array(case["X"], dtype=float)
+    if KEY_F15 in reported and case["scoring"] == "r2":
+        return True
+    if KEY_F06 in reported and np.any(hnt[2][1] <= rcond_of(X)):
+        return True
+    return False
+
+
 # ----------------------------------------------------------------------------- run
 def run(ctx):
     po = C.proof_obligations(ctx.prop)
-    ncases = 300 if ctx.quick else 6000
+    ncases = 600 if ctx.quick else 12000
     cases, recs, spl, hnts, gts = [], [], [], [], []
     stats = dict(families={}, methods={}, scorers={}, cv_kinds={}, alpha_type={}, y1d=0, n_jobs2=0,
                  errors=0, rank_cut_fold=0, rank_cut_full=0, cutoff_active=0, exact_tie=0,
@@ -424,26 +435,38 @@ def run(ctx):
     if cur:
         groups.append(cur)
     for gidx in groups:
-        body = ";\n ".join(texts[i] for i in gidx)
+        # self-test: the last entry of every shard is the shard's first case with a deliberately
+        # wrong observation (cv_values_[0] off by 1e-3 relative, all gates on); Coq must flag it
+        i0 = gidx[0]
+        bad = dict(recs[i0])
+        bad["cv"] = [recs[i0]["cv"][0] * 1.001 + 1e6 * atols(cases[i0])[0]] + list(recs[i0]["cv"][1:])
+        g_all = dict(gts[i0], gcv=[True] * len(gts[i0]["gcv"]))
+        body = ";\n ".join([texts[i] for i in gidx] + [case_coq(cases[i0], spl[i0], hnts[i0], g_all, bad)])
         shards.append(C.SHARD_HEAD + "From Coq Require Import List PrimFloat.\nImport ListNotations.\n"
                       "From Verif Require Import MExp Ridge2Fold.\nOpen Scope float_scope.\n"
                       "Definition verdicts : list (list bool) := [\n %s].\n"
                       "Eval vm_compute in (failing_flat verdicts).\n" % body)
-    outs = C.run_shards(ctx.prop, shards, par=2)
+    outs = C.run_shards(ctx.prop, shards, par=1)
     mismatched, corr_broken = {}, []
     for gidx, (rc, out) in zip(groups, outs):
         lists = C.parse_nat_lists(out)
         if rc != 0 or len(lists) != 1:
             corr_broken.append(out[-1500:])
             continue
+        selftest = 6 * len(gidx) + 1            # cv component of the injected case
+        if selftest not in lists[0]:
+            corr_broken.append("self-test: the injected wrong observation was not flagged\n" + out[-500:])
         for k in lists[0]:
-            mismatched.setdefault(gidx[k // 6], []).append(COMPONENTS[k % 6])
+            if k // 6 < len(gidx):
+                mismatched.setdefault(gidx[k // 6], []).append(COMPONENTS[k % 6])
     for i, r in enumerate(recs):
         if "error" in r:
             mismatched.setdefault(i, []).append("raised")
-    n_search, reported = 0, set()
-    for i in sorted(mismatched):
-        res = oracle(cases[i], recs[i], spl[i], gts[i])
+    n_search, reported, explained, n_unkeyed, n_found = 0, set(), 0, 0, 0
+    results = {i: oracle(cases[i], recs[i], spl[i], gts[i]) for i in sorted(mismatched)}
+    order = sorted(mismatched, key=lambda i: (0 if (results[i] and results[i][1]) else 1, i))
+    for i in order:
+        res = results[i]
         n_search += 1
         rep = dict(case=cases[i], observed=recs[i], disagreeing_components=mismatched[i],
                    correspondence="r2f_case_ok (Model/Ridge2Fold.v)")
@@ -453,8 +476,18 @@ def run(ctx):
                 continue                      # one replay per defect is enough
             if key:
                 reported.add(key)
+            elif n_found >= 5:
+                n_found += 1
+                continue
+            else:
+                n_found += 1
             C.report_violation(ctx, "C10 fails on the implementation: " + msg, rep, key=key, found_input=True)
+        elif in_region(cases[i], hnts[i], reported):
+            explained += 1                    # small effect of a defect already reported in this run
+        elif n_unkeyed >= 5:
+            n_unkeyed += 1                    # counted in the evidence, not reported one by one
         else:
+            n_unkeyed += 1
             rep["note"] = "model and implementation disagree but the explicit-fit oracle accepts the output"
             C.report_violation(ctx, "correspondence Ridge2FoldCV model vs implementation broken (%s)"
                                % ", ".join(mismatched[i]), rep, found_input=False)
@@ -495,6 +528,8 @@ def run(ctx):
                traces_validated_against_impl=len(idx) - len([i for i in mismatched if i in idx]),
                samples=[slim(i) for i in idx[:2]],
                distribution=stats, anchor_drift=changed, oracle_runs=n_search,
+               mismatches_explained_by_reported_defect=explained,
+               mismatches_total=len(mismatched), oracle_failures_unkeyed=n_found, oracle_accepts_unkeyed=n_unkeyed,
                tolerances=dict(rtol=RTOL, gate=GATE, hint_eps=2.0 ** -36))
     return C.finish(ctx, "proof", cov,
                     ["theorems are over an arbitrary real closed field; binary64 rounding is covered only by the "
